@@ -101,14 +101,21 @@ func (g *Generator) FuncToString(f *model.Function) string {
 		}
 	}
 
+	// The manipulators receive the destination as it is declared in the
+	// signature above: in arg style that is always a pointer.
+	dstVar := f.Dst
+	if f.DstVarStyle == model.DstVarArg {
+		dstVar.Pointer = true
+	}
+
 	if f.PreProcess != nil {
-		sb.WriteString(g.ManipulatorToString(f.PreProcess, f.Src, f.Dst, f.AdditionalArgs))
+		sb.WriteString(g.ManipulatorToString(f.PreProcess, f.Src, dstVar, f.AdditionalArgs))
 	}
 	for i := range f.Assignments {
 		sb.WriteString(AssignmentToString(f, f.Assignments[i]))
 	}
 	if f.PostProcess != nil {
-		sb.WriteString(g.ManipulatorToString(f.PostProcess, f.Src, f.Dst, f.AdditionalArgs))
+		sb.WriteString(g.ManipulatorToString(f.PostProcess, f.Src, dstVar, f.AdditionalArgs))
 	}
 	if f.RetError || f.DstVarStyle == model.DstVarReturn {
 		sb.WriteString("\nreturn\n")
